@@ -23,6 +23,8 @@ type yItem struct {
 }
 
 type gramCtx struct {
+	carrier map[string]bool // ast types that some action opens as a half-built carrier
+	carrierGrew bool
 	depth   int
 	W       *World
 	Layout  map[string][]yItem // type name -> layout
@@ -43,7 +45,7 @@ func (r *gRun) listFacts(l *gList) (isNil, isEmpty, nonEmpty, elemsNonNil, elems
 			elemsPos = false
 		}
 	}
-	for _, e := range l.App {
+	for _, e := range append(append([]gv{}, l.Pre...), l.App...) {
 		switch x := e.(type) {
 		case gNil:
 			elemsNonNil = false
@@ -61,8 +63,19 @@ func (r *gRun) listFacts(l *gList) (isNil, isEmpty, nonEmpty, elemsNonNil, elems
 			elemsPos = false
 		}
 	}
-	if len(l.App) > 0 {
+	if len(l.App) > 0 || len(l.Pre) > 0 {
 		return false, false, true, elemsNonNil, elemsPos
+	}
+	if l.Base != nil {
+		if d, ok := r.facts[fmt.Sprintf("lempty:%d", l.Base.ID)]; ok {
+			if !d {
+				return false, false, true, elemsNonNil, elemsPos
+			}
+			if dn, okn := r.facts[fmt.Sprintf("lnil:%d", l.Base.ID)]; okn {
+				return dn, !dn, false, elemsNonNil, elemsPos
+			}
+			return l.Base.LNil && !l.NonNil, l.Base.LEmpty || l.NonNil, false, elemsNonNil, elemsPos
+		}
 	}
 	if l.Base == nil {
 		if l.NonNil {
@@ -132,7 +145,12 @@ func (g *gramCtx) altOfObj(r *gRun, o *gObj) []*ntAlt {
 		}
 		return []*ntAlt{{Any: true, PosSet: r.posSetOf(o)}}
 	}
-	a := &ntAlt{T: o.T, NilF: map[string]bool{}, NonNilF: map[string]bool{}, Rel: map[string]string{}, NonEmpty: map[string]bool{}, ElemAlts: map[string][]*ntAlt{}}
+	a := &ntAlt{T: o.T, NilF: map[string]bool{}, NonNilF: map[string]bool{}, Rel: map[string]string{}, NonEmpty: map[string]bool{}, ElemAlts: map[string][]*ntAlt{}, ChildAlts: map[string][]*ntAlt{}}
+	isCarrier := !strings.HasPrefix(typeName(o.T), "pkg/ast.") || g.carrier[typeName(o.T)]
+	if o.Input && o.Opened && o.T != nil && !g.carrier[typeName(o.T)] && strings.HasPrefix(typeName(o.T), "pkg/ast.") {
+		g.carrier[typeName(o.T)] = true
+		g.carrierGrew = true
+	}
 	st, _ := o.T.Underlying().(*types.Struct)
 	if st == nil {
 		return []*ntAlt{{Any: true}}
@@ -159,7 +177,14 @@ func (g *gramCtx) altOfObj(r *gRun, o *gObj) []*ntAlt {
 				a.NonNilF[f.Name()] = true
 			}
 			if o.Alt != nil && o.Alt.ElemAlts[f.Name()] != nil {
-				a.ElemAlts[f.Name()] = o.Alt.ElemAlts[f.Name()]
+				for _, e := range o.Alt.ElemAlts[f.Name()] {
+					a.ElemAlts[f.Name()] = append(a.ElemAlts[f.Name()], copyAlt(e))
+				}
+			}
+			if o.Alt != nil && o.Alt.ChildAlts[f.Name()] != nil {
+				for _, e := range o.Alt.ChildAlts[f.Name()] {
+					a.ChildAlts[f.Name()] = append(a.ChildAlts[f.Name()], copyAlt(e))
+				}
 			}
 			if cls != "other" {
 				allNil = false
@@ -178,6 +203,28 @@ func (g *gramCtx) altOfObj(r *gRun, o *gObj) []*ntAlt {
 					allNil = false
 					if !x.Obj.MaybeNil || (ok && !d) {
 						a.NonNilF[f.Name()] = true
+					}
+					if cls == "vertex" && isCarrier && x.Obj.Kind == "node" && g.depth < 2 {
+						g.depth++
+						cas := g.altOfObj(r, x.Obj)
+						g.depth--
+						var shallow []*ntAlt
+						okc := true
+						for _, ca := range cas {
+							if ca.Any {
+								okc = false
+							}
+							cc := copyAlt(ca)
+							cc.ElemAlts = map[string][]*ntAlt{}
+							cc.ChildAlts = map[string][]*ntAlt{}
+							shallow = append(shallow, cc)
+						}
+						if okc && len(shallow) > 0 {
+							if x.Obj.MaybeNil && !(ok && !d) {
+								shallow = append(shallow, &ntAlt{Nil: true})
+							}
+							a.ChildAlts[f.Name()] = shallow
+						}
 					}
 				}
 			default:
@@ -242,15 +289,18 @@ func (g *gramCtx) elemAltsOf(r *gRun, l *gList) []*ntAlt {
 	}
 	if l.Base != nil {
 		b := l.Base
-		if b.Parent == nil || b.Parent.Alt == nil || b.Parent.Alt.ElemAlts[b.PField] == nil {
+		switch {
+		case b.Dollar > 0 && b.ElemAlts != nil:
+			add(b.ElemAlts)
+		case b.Parent != nil && b.Parent.Alt != nil && b.Parent.Alt.ElemAlts[b.PField] != nil:
+			add(b.Parent.Alt.ElemAlts[b.PField])
+		default:
 			if b.LNonEmpty {
 				return nil
 			}
-		} else {
-			add(b.Parent.Alt.ElemAlts[b.PField])
 		}
 	}
-	for _, e := range l.App {
+	for _, e := range append(append([]gv{}, l.Pre...), l.App...) {
 		rf, ok := e.(gRef)
 		if !ok || rf.Obj.Kind != "node" {
 			return nil
@@ -268,6 +318,7 @@ func (g *gramCtx) elemAltsOf(r *gRun, l *gList) []*ntAlt {
 			}
 			c := copyAlt(a)
 			c.ElemAlts = map[string][]*ntAlt{}
+			c.ChildAlts = map[string][]*ntAlt{}
 			shallow = append(shallow, c)
 		}
 		add(shallow)
@@ -294,6 +345,14 @@ func (r *gRun) fieldNow(o *gObj, f string) (gv, bool) {
 
 // relOf computes the relation len(seps) vs len(items) for a pair of slots of o.
 func (g *gramCtx) relOf(r *gRun, o *gObj, items, seps string) string {
+	res := g.relOf1(r, o, items, seps)
+	if res == "other" && os.Getenv("VC_GRAM_DEBUG") == "rel" {
+		fmt.Printf("relOf=other rule %d %s %s/%s written=%v,%v vals=%s | %s alt=%v\n", r.rule.Num, o.Origin, items, seps, o.Fields[items] != nil, o.Fields[seps] != nil, describeG(o.Fields[items]), describeG(o.Fields[seps]), o.Alt)
+	}
+	return res
+}
+
+func (g *gramCtx) relOf1(r *gRun, o *gObj, items, seps string) string {
 	type shp struct {
 		par   *gObj // the list is based on field fld of par (nil: no opaque base)
 		fld   string
@@ -344,6 +403,9 @@ func (g *gramCtx) relOf(r *gRun, o *gObj, items, seps string) string {
 		return "other"
 	case is.par != nil && ss.par != nil && is.par == ss.par && is.par.Alt != nil:
 		base := is.par.Alt.Rel[is.fld+"/"+ss.fld]
+		if os.Getenv("VC_GRAM_DEBUG") == "rel" {
+			fmt.Printf("relOf rule %d %s.%s/%s base=%q n=%d k=%d alt=%s\n", r.rule.Num, o.Origin, items, seps, base, n, k, is.par.Alt)
+		}
 		switch {
 		case base == "opaque" && n == 0 && k == 0:
 			return "opaque"
@@ -364,6 +426,9 @@ func (g *gramCtx) relOf(r *gRun, o *gObj, items, seps string) string {
 		// the separators of the base are known to be none (nil by the contract): with eq-1 the base has one item
 		sep := g.sepSlotOf(is.par, is.fld)
 		if sep != "" && is.par.Alt.NilF[sep] {
+			if br := is.par.Alt.Rel[is.fld+"/"+sep]; n == 0 && k == 0 && (br == "opaque" || br == "empty" || br == "eq-1" || br == "eq") {
+				return br // the pair is passed on unchanged
+			}
 			switch is.par.Alt.Rel[is.fld+"/"+sep] {
 			case "eq-1":
 				if k == n {
@@ -463,6 +528,9 @@ func joinAlt(into *ntInfo, a *ntAlt) bool {
 				nv = "other"
 			}
 			if nv != v {
+				if os.Getenv("VC_GRAM_DEBUG") == "rel" && nv == "other" {
+					fmt.Printf("joinAlt: %s rel %s: %q join %q -> other\n", b.key(), k, v, av)
+				}
 				b.Rel[k] = nv
 				changed = true
 			}
@@ -487,6 +555,40 @@ func joinAlt(into *ntInfo, a *ntAlt) bool {
 			}
 			b.ElemAlts[f] = tmp.Alts
 		}
+		for f, bes := range b.ChildAlts {
+			aes := a.ChildAlts[f]
+			if bes == nil {
+				continue
+			}
+			if aes == nil {
+				if a.NilF[f] {
+					aes = []*ntAlt{{Nil: true}}
+				} else {
+					b.ChildAlts[f] = nil
+					changed = true
+					continue
+				}
+			}
+			tmp := &ntInfo{Alts: bes}
+			for _, e := range aes {
+				if joinAlt(tmp, e) {
+					changed = true
+				}
+			}
+			b.ChildAlts[f] = tmp.Alts
+		}
+		for f, aes := range a.ChildAlts {
+			if _, ok := b.ChildAlts[f]; !ok && aes != nil && b.NilF[f] {
+				cp := []*ntAlt{{Nil: true}}
+				for _, e := range aes {
+					if !e.Nil {
+						cp = append(cp, copyAlt(e))
+					}
+				}
+				b.ChildAlts[f] = cp
+				changed = true
+			}
+		}
 		for f, aes := range a.ElemAlts {
 			if _, ok := b.ElemAlts[f]; !ok && aes != nil && b.NilF[f] {
 				var cp []*ntAlt
@@ -504,7 +606,18 @@ func joinAlt(into *ntInfo, a *ntAlt) bool {
 }
 
 func copyAlt(a *ntAlt) *ntAlt {
-	c := &ntAlt{Nil: a.Nil, Any: a.Any, T: a.T, Empty: a.Empty, PosSet: a.PosSet, NilF: map[string]bool{}, NonNilF: map[string]bool{}, Rel: map[string]string{}, NonEmpty: map[string]bool{}, ElemAlts: map[string][]*ntAlt{}}
+	c := &ntAlt{Nil: a.Nil, Any: a.Any, T: a.T, Empty: a.Empty, PosSet: a.PosSet, NilF: map[string]bool{}, NonNilF: map[string]bool{}, Rel: map[string]string{}, NonEmpty: map[string]bool{}, ElemAlts: map[string][]*ntAlt{}, ChildAlts: map[string][]*ntAlt{}}
+	for k, v := range a.ChildAlts {
+		if v == nil {
+			c.ChildAlts[k] = nil
+			continue
+		}
+		var cp []*ntAlt
+		for _, e := range v {
+			cp = append(cp, copyAlt(e))
+		}
+		c.ChildAlts[k] = cp
+	}
 	for k, v := range a.NilF {
 		c.NilF[k] = v
 	}
@@ -587,6 +700,62 @@ func (g *gramCtx) absorb(gp *gramParser, r *gRun, ni *ntInfo) bool {
 		if !epos && ni.ElemsPos {
 			ni.ElemsPos, changed = false, true
 		}
+		if l, ok := v.(*gList); ok {
+			// shapes of element 0
+			var first []*ntAlt
+			firstKnown := false
+			switch {
+			case len(l.Pre) > 0:
+				first, firstKnown = g.elemAltsOf(r, &gList{App: l.Pre[:1]}), true
+			case l.Base != nil && l.Base.Dollar > 0 && (l.Base.LNonEmpty && !l.Base.LNil && !l.Base.LEmpty):
+				first, firstKnown = l.Base.FirstAlts, true
+				if first == nil {
+					first = l.Base.ElemAlts
+				}
+			case l.Base == nil && len(l.App) > 0:
+				first, firstKnown = g.elemAltsOf(r, &gList{App: l.App[:1]}), true
+			case l.Base != nil || len(l.App) > 0:
+				first, firstKnown = g.elemAltsOf(r, l), true
+			}
+			if firstKnown {
+				if first == nil {
+					if ni.FirstAlts != nil {
+						ni.FirstAlts, changed = nil, true
+					}
+					ni.firstDead = true
+				} else if !ni.firstDead {
+					tmp := &ntInfo{Alts: ni.FirstAlts}
+					for _, e := range first {
+						if joinAlt(tmp, e) {
+							changed = true
+						}
+					}
+					ni.FirstAlts = tmp.Alts
+				}
+			}
+			eas := g.elemAltsOf(r, l)
+			hasElems := l.Base != nil || len(l.App) > 0 || len(l.Pre) > 0
+			switch {
+			case !hasElems:
+			case eas == nil:
+				if !ni.ElemAltsSet || ni.ElemAlts != nil {
+					ni.ElemAltsSet, ni.ElemAlts, changed = true, nil, true
+				}
+			case !ni.ElemAltsSet:
+				ni.ElemAltsSet, changed = true, true
+				for _, e := range eas {
+					ni.ElemAlts = append(ni.ElemAlts, copyAlt(e))
+				}
+			case ni.ElemAlts != nil:
+				tmp := &ntInfo{Alts: ni.ElemAlts}
+				for _, e := range eas {
+					if joinAlt(tmp, e) {
+						changed = true
+					}
+				}
+				ni.ElemAlts = tmp.Alts
+			}
+		}
 	case "node":
 		v := r.yyval["node"]
 		switch x := v.(type) {
@@ -663,6 +832,14 @@ func (g *gramCtx) inferNT(gp *gramParser) (map[string]*ntInfo, int) {
 					}
 				}
 			}
+		}
+		if g.carrierGrew {
+			g.carrierGrew = false
+			changed = true
+		}
+		if gp.ExplicitGrew {
+			gp.ExplicitGrew = false
+			changed = true
 		}
 		if !changed || rounds > 40 {
 			break
